@@ -763,7 +763,8 @@ def run(ctx):
     ctx.assumptions += [
         "data is abstracted to 'at least one byte' per pipeline stage; byte conservation between stages is assumed",
         "the application never withdraws input it has offered and never calls lzma_filters_update in the middle of an unfinished lzma_code loop",
-        "replay predictions assume LZMA2 chunks end only at flushes (small inputs in small-grant runs) and BCJ pieces > 5 bytes; trace validation does not",
+        "replay predictions assume LZMA2 chunks end only at flushes (small inputs in small-grant runs) and BCJ pieces > 5 bytes; trace validation does not; "
+        "chunks that close because they are full are covered by the boundary sweep (flush offsets over the 699 bytes after a measured boundary)",
         "threaded encoder: worker timing is 'a closed Block becomes readable at any time' (details: C08 / MtEncoder.tla)"]
     return ctx.finish(rule="evaluations = application histories executed on real encoders (distinct by history, grant, unit size) + xz "
                       "command line runs; traces = executions validated call by call against TraceXzStreamEnc",
